@@ -539,6 +539,129 @@ pub fn scenarios(tier: Tier) -> Vec<(String, Vec<Scenario>)> {
   groups
 }
 
+
+// ------------------------------------------------------------------------------------------------
+// the sender goes away before the receiving application reads
+// ------------------------------------------------------------------------------------------------
+
+#[derive(Clone, Copy, Debug)]
+struct Gone {
+  pair: Pair,
+  inproc: bool,
+  n: usize,
+  size: usize,
+  /// how the sender leaves: close() with LINGER=-1, or its whole context terminates
+  term: bool,
+  /// the receiver reads k messages before the sender leaves, the rest afterwards
+  read_before: usize,
+}
+
+fn gone_world(c: Gone) -> world::WorldResult<(usize, Vec<Frames>, Vec<Frames>)> {
+  world::run(1, move || async move {
+    let sctx = Context::new().expect("sender context");
+    let rctx = Context::new().expect("receiver context");
+    let (ta, tb) = match c.pair {
+      Pair::PushPull => (SocketType::Push, SocketType::Pull),
+      _ => (SocketType::Dealer, SocketType::Router),
+    };
+    let bctx = if c.inproc { &sctx } else { &rctx };
+    let a = stack::mk(&sctx, ta, &[(o::SNDTIMEO, 100), (o::SNDHWM, 1000), (o::LINGER, -1)]).await;
+    let b = stack::mk(bctx, tb, &[(o::RCVTIMEO, 50), (o::RCVHWM, 1000), (o::LINGER, 0)]).await;
+    let link = if c.inproc {
+      b.bind("inproc://c01-gone").await.expect("bind");
+      a.connect("inproc://c01-gone").await.expect("connect");
+      None
+    } else {
+      Some(stack::link_pair(&a, &b, 1 << 16).await)
+    };
+    settle_n(6).await;
+    let all: Vec<Frames> = (0..c.n).map(|i| frames_of(i, &[c.size])).collect();
+    let mut accepted = vec![];
+    for f in &all {
+      if send_one(&a, f, None).await.is_ok() {
+        accepted.push(f.clone());
+      }
+    }
+    settle_n(6).await;
+    let mut received: Vec<Frames> = vec![];
+    let take = |fr: Vec<rzmq::Msg>, pair: Pair| -> Frames {
+      let mut f: Frames = fr.iter().map(|m| m.data().unwrap_or(&[]).to_vec()).collect();
+      if pair != Pair::PushPull && !f.is_empty() {
+        f.remove(0); // routing envelope
+      }
+      f
+    };
+    for _ in 0..c.read_before {
+      if let Ok(fr) = b.recv_multipart().await {
+        received.push(take(fr, c.pair));
+      }
+    }
+    // the sender leaves (everything it accepted has had every chance to be transmitted)
+    if c.term && !c.inproc {
+      drop(a);
+      let _ = tokio::time::timeout(std::time::Duration::from_secs(30), sctx.term()).await;
+    } else {
+      let _ = tokio::time::timeout(std::time::Duration::from_secs(30), a.close()).await;
+    }
+    settle_n(8).await;
+    while let Ok(fr) = b.recv_multipart().await {
+      received.push(take(fr, c.pair));
+    }
+    if let Some(l) = &link {
+      l.destroy();
+    }
+    let _ = tokio::time::timeout(std::time::Duration::from_secs(30), rctx.term()).await;
+    let _ = tokio::time::timeout(std::time::Duration::from_secs(30), sctx.term()).await;
+    (c.n, accepted, received)
+  })
+}
+
+fn gone_sub(tier: Tier) -> Sub {
+  let mut sub = Sub::new("sender-gone-before-read", "E3");
+  sub.rule = "case = one world: the sender sends n messages (all transmitted: quiescence afterwards), the receiving application reads k of them, the sender closes with LINGER=-1 (or its context terminates), then the application reads the rest; non-trivial = some message was still unread when the sender left; oracle: everything accepted is received, once, in order, intact - a peer's departure does not take back what it already delivered".into();
+  let mut list = vec![];
+  for pair in [Pair::PushPull, Pair::DealerRouter] {
+    for inproc in [false, true] {
+      for n in tier.pick(vec![1usize, 3, 20], vec![1, 2, 3, 20, 200]) {
+        for size in [1usize, 300, 70_000] {
+          if size == 70_000 && n > 3 {
+            continue;
+          }
+          for term in [false, true] {
+            for read_before in [0usize, 1, n] {
+              if read_before > n || (read_before == 1 && n == 1) {
+                continue;
+              }
+              list.push(Gone { pair, inproc, n, size, term, read_before });
+            }
+          }
+        }
+      }
+    }
+  }
+  sub.bounds = json!({"worlds": list.len()});
+  par::enumerate(&mut sub, list.len(), |i| {
+    let c = list[i];
+    let r = gone_world(c);
+    let wit = json!({"explorer": "e3", "gone": format!("{:?}", c)});
+    let class = format!("{:?}:{}", c.pair, if c.inproc { "inproc" } else { "zmtp" });
+    let mut case = Case { steps: c.n as u64 + 3, nontrivial: c.read_before < c.n, ..Default::default() };
+    for p in &r.panics {
+      case.violations.push(("panic".into(), p.rsplit(" @ ").next().map(mc_core::short_loc).unwrap_or_default(), p.clone(), wit.clone()));
+    }
+    if let Some((_, accepted, received)) = r.result {
+      case.outcome = mc_core::digest(&(accepted.len(), received.len()));
+      case.state = mc_core::digest(&(i, received.len()));
+      if received != accepted {
+        let clause = if received.len() < accepted.len() { "delivered-message-lost-when-peer-left" } else { "received-differs-from-accepted" };
+        case.violations.push((clause.into(), class, format!("{} messages of {} bytes accepted and transmitted, application had read {} when the sender {}; {} received in total", accepted.len(), c.size, c.read_before.min(accepted.len()), if c.term { "terminated" } else { "closed" }, received.len()), wit.clone()));
+      }
+    }
+    case
+  });
+  sub
+}
+
 pub fn run(tier: Tier) -> Report {
   let mut rep = Report::new("C01", tier, "model_checking");
   rep.assume("deterministic current-thread runtime with a paused clock: the interleavings explored are those the script dimensions expose (first-send moment, receiver pacing, link buffer size, held handshake); multi-thread runtime schedules inside the actors are not enumerated");
@@ -578,6 +701,7 @@ pub fn run(tier: Tier) -> Report {
     });
     rep.add(sub);
   }
+  rep.add(gone_sub(tier));
   rep
 }
 
